@@ -20,7 +20,7 @@ def scene_case(spec):
     rng = np.random.default_rng([spec["seed"], spec["idx"]])
     out = {"evaluations": 1, "mismatches": [], "prop_failures": [], "dist": {}, "nontrivial": []}
     mode = spec["mode"]
-    cfg = S.draw_config(rng, nb=1, multi_dir=(spec["idx"] % 4 == 3), att_zero=rng.random() < 0.5,
+    cfg = S.draw_config(rng, nb=int(rng.integers(1, 3)), multi_dir=(spec["idx"] % 4 == 3), att_zero=rng.random() < 0.5,
                         max_patches=spec["max_patches"])
     K = int(rng.integers(1, 4))
     radi = S.build(cfg)
